@@ -164,16 +164,19 @@ end function
 """
 PP = """#define NMAX 100
 #define M missing_module_with_a_long_name
+#define WP selected_real_kind(15, 307)
 #define SQR(x) ((x)*(x))
 #if defined(NMAX) && NMAX > 10
 module ppmod
   use M
   integer :: arr(NMAX)
+  real(WP) :: xw
   real V
 contains
   subroutine s(V)
     real V
     V = SQR(V)
+    xw = xw + arr(NMAX)
   end subroutine s
 end module ppmod
 #else
@@ -203,7 +206,29 @@ FIXED = """C     fixed form
    10 CONTINUE
       END SUBROUTINE
 """
-TINY = {f"{R}/t_kw.f90": "integer, p\n", f"{R}/t_empty.f90": "", f"{R}/t_comment.f90": "! only a comment\n\n",
+DEFERRED = """module dm
+  type, abstract :: base_t
+  contains
+    procedure(run_if), deferred :: run
+    procedure(run_if), deferred :: stop
+  end type base_t
+  type, extends(base_t) :: impl_t
+    integer :: k
+  end type impl_t
+  abstract interface
+    subroutine run_if(self, n)
+      import :: base_t
+      class(base_t), intent(inout) :: self
+      integer, intent(in), optional :: n
+    end subroutine run_if
+  end interface
+contains
+  subroutine other()
+  end subroutine other
+end module dm
+"""
+TINY = {f"{R}/t_vis.f90": "public :: foo\n", f"{R}/t_vis2.f90": "module tv\n  integer :: zz\nend module tv\nprivate :: zz\npublic\n",
+        f"{R}/deferred.f90": DEFERRED, f"{R}/t_kw.f90": "integer, p\n", f"{R}/t_empty.f90": "", f"{R}/t_comment.f90": "! only a comment\n\n",
         f"{R}/t_call.f90": "call x%y(\nuse \ntype(\nend\n", f"{R}/t_pp.F90": "#if X\n#define Y(a) a\nY(\n"}
 DOCS = {**TINY, f"{R}/shapes.f90": MOD, f"{R}/shapes_impl.f90": SUBMOD, f"{R}/main.f90": PROG, f"{R}/broken.f90": BROKEN,
         f"{R}/ppmod.F90": PP, f"{R}/toplevel.f90": TOPLEVEL, f"{R}/fixed.f": FIXED}
@@ -231,8 +256,19 @@ ws.reset(SRV, DOCS)
 _FAIL = []
 
 
-def check_line(path: str, line: int) -> bool:
-    lines = ws.doc_lines(SRV, path)
+def _jsonable(x) -> bool:
+    import json
+
+    try:
+        json.dumps(x)
+        return True
+    except (TypeError, ValueError):
+        return False
+
+
+def check_line(path: str, line: int, srv=None) -> bool:
+    srv = srv or SRV
+    lines = ws.doc_lines(srv, path)
     if lines is None:
         return False
     width = len(lines[line]) if 0 <= line < len(lines) else 3
@@ -241,8 +277,8 @@ def check_line(path: str, line: int) -> bool:
         cols = sorted({0, 5, width - 5, width - 4, width - 2, width, width + 1})
     for col in cols:
         for meth in ws.POSITIONAL:
-            r = ws.request(SRV, meth, path, line, col)
-            if r[0] != "resp" or not ws.ranges_ok(SRV, meth, path, r[1]):
+            r = ws.request(srv, meth, path, line, col)
+            if r[0] != "resp" or not ws.ranges_ok(srv, meth, path, r[1]) or not _jsonable(r[1]):
                 _FAIL.append((path, line, col, meth, str(r)[:300]))
                 return False
     return True
@@ -263,6 +299,39 @@ def sweep(fi: int, line: int) -> bool:
         res, hung = ws.guarded(lambda: check_line(path, line), 60)
     ok = bool(res) and not hung
     tock("sweep")
+    return ok
+
+
+OPTSETS = [["--disable_diagnostics", "--enable_code_actions"], ["--autocomplete_no_prefix", "--autocomplete_name_only"],
+           ["--hover_signature", "--lowercase_intrinsics", "--sort_keywords"], ["--symbol_skip_mem", "--autocomplete_no_snippets"],
+           ["--enable_code_actions", "--use_signature_help", "--max_line_length", "20", "--max_comment_line_length", "10"], []]
+OPT_DOCS = [f"{R}/deferred.f90", f"{R}/main.f90", f"{R}/toplevel.f90", f"{R}/ppmod.F90"]
+_OPT_SRV = {}
+
+
+def _opt_server(o: int):
+    if o not in _OPT_SRV:
+        srv = ws.make_server(tuple(["--incremental_sync", "--disable_autoupdate"] + OPTSETS[o]))
+        _OPT_SRV[o] = ws.reset(srv, DOCS)
+    return _OPT_SRV[o]
+
+
+def opt_sweep(o: int, d: int, line: int) -> bool:
+    """the same sweep under other option sets (diagnostics disabled + code actions, name-only / no-prefix
+    completion, hover signature + lowercase intrinsics + sorted keywords, ...) on four documents
+    pre: 0 <= o < len(OPTSETS) and 0 <= d < len(OPT_DOCS) and 0 <= line <= 45 and (o * 4 + d + line) % NPART == PART
+    post: _
+    """
+    tick("opt_sweep")
+    o, d = conc(o, 0, len(OPTSETS) - 1), conc(d, 0, len(OPT_DOCS) - 1)
+    path = OPT_DOCS[d]
+    if line > NL[path]:
+        return True
+    line = conc(line, 0, NL[path])
+    with NoTracing():
+        res, hung = ws.guarded(lambda: check_line(path, line, _opt_server(o)), 60)
+    ok = bool(res) and not hung
+    tock("opt_sweep")
     return ok
 
 
